@@ -153,7 +153,10 @@ def make_config(root: str, handlers: str = "default", cachetime: int = 0, **over
         config.set("handlers.HandlerMultiplexer", "handlers", handlers)
     for key, val in over.items():
         sect, opt = key.split("__")
-        config.set(sect.replace("_DOT_", "."), opt, val)
+        sect = sect.replace("_DOT_", ".")
+        if not config.has_section(sect):
+            config.add_section(sect)
+        config.set(sect, opt, val)
     return config
 
 
